@@ -459,6 +459,7 @@ func RunFollowerClose(c *Cluster) (caughtUp bool) {
 	if g == nil || c.viol != nil {
 		return false
 	}
+	c.Do(Action{K: AVClosePhase})
 	n := c.nodes[g.real]
 	if !n.up {
 		c.Do(Action{K: ARestart, N: n.id, I: -1})
